@@ -2,9 +2,9 @@
    exactly the written node list, edge list (weights as identical tokens) and
    directedness — for every graph, every name (byte string) and every weight
    token, under the two float oracles. *)
-From Coq Require Import String List NArith ZArith Bool Lia.
+From Coq Require Import String List NArith ZArith Bool Lia Permutation.
 From GV Require Import Base.Outcome Base.AMap Model.GState Model.Creation Model.Query Model.XmlEscape Model.GraphML.
-From GV Require Import Spec.GraphMLDef Proofs.EscapeOk Proofs.GraphMLOk Proofs.CreationNoPanic Proofs.CreationNodes.
+From GV Require Import Spec.GraphMLDef Proofs.EscapeOk Proofs.GraphMLOk Proofs.CreationNoPanic Proofs.CreationNodes Proofs.CreationRebuild.
 Import ListNotations.
 
 Definition bare_node (n : gnode) : gnode := mknode (nname n) None.
@@ -198,7 +198,107 @@ Section RoundTrip.
       unfold get_all_nodes at 1. rewrite Hv. apply map_nname_bare.
     - exact (new_from_specs bytes_eqb bytes_ltb bytes_eqb_eq _ _ _ _ H).
   Qed.
+
+  (* admissibility only looks at the endpoints *)
+  Lemma admissible_bare : forall s names done e,
+    admissible bytes_ltb s names done e ->
+    admissible bytes_ltb s names (map bare_edge done) (bare_edge e).
+  Proof.
+    intros s names done e [H1 [H2 [H3 [H4 H5]]]]. unfold admissible. cbn [bare_edge eu ev].
+    repeat (split; [assumption|]). intros Hm e' He'. apply in_map_iff in He'. destruct He' as [e0 [<- He0]].
+    intro Hsp. apply (H5 Hm e0 He0). exact Hsp.
+  Qed.
+
+  Lemma all_admissible_bare : forall s names es done,
+    all_admissible bytes_ltb s names done es ->
+    all_admissible bytes_ltb s names (map bare_edge done) (map bare_edge es).
+  Proof.
+    intros s names es. induction es as [|e es IH]; intros done H; cbn [map all_admissible] in *; [exact I|].
+    destruct H as [Ha Hr]. split; [apply admissible_bare; exact Ha|].
+    specialize (IH _ Hr). rewrite map_app in IH. exact IH.
+  Qed.
+
+  (* THE ROUND TRIP, element level: whatever node list (distinct names) and whatever admissible edge
+     list in whatever order is written, reading it back with the same specs succeeds and yields the
+     same names in the same order, the same specs (directedness) and the same edge multiset with
+     identical weight tokens *)
+  Theorem roundtrip_full_elements : forall (s : specs) (ns : list gnode) (es : list gedge),
+    NoDup (map nname ns) ->
+    all_admissible bytes_ltb s (map nname ns) [] es ->
+    exists g', read_events parse (write_elements fmt (directed s) ns es) s = Ok g' /\
+               get_all_nodes g' = map bare_node ns /\ sp g' = s /\
+               Permutation (get_all_edges g') (map bare_edge es).
+  Proof.
+    intros s ns es Hnd Hadm. unfold read_events. rewrite roundtrip_elements. cbn [bind].
+    rewrite with_directed_same.
+    destruct (new_from_rebuild bytes_eqb bytes_ltb bytes_eqb_eq (map bare_node ns) (map bare_edge es) s) as [g' [E [Hv [Hs Hp]]]].
+    - rewrite map_nname_bare. exact Hnd.
+    - rewrite map_nname_bare. apply (all_admissible_bare s (map nname ns) es []). exact Hadm.
+    - exists g'. split; [exact E|]. split; [exact Hv|]. split; [exact Hs|exact Hp].
+  Qed.
+
+  (* graph level *)
+  Theorem roundtrip_full : forall g : ggraph,
+    NoDup (map nname (get_all_nodes g)) ->
+    all_admissible bytes_ltb (sp g) (map nname (get_all_nodes g)) [] (get_all_edges g) ->
+    exists g', read_events parse (write_events fmt g) (sp g) = Ok g' /\
+               map nname (get_all_nodes g') = map nname (get_all_nodes g) /\
+               directed (sp g') = directed (sp g) /\
+               Permutation (get_all_edges g') (map bare_edge (get_all_edges g)).
+  Proof.
+    intros g Hnd Hadm. destruct (roundtrip_full_elements (sp g) _ _ Hnd Hadm) as [g' [E [Hn [Hs Hp]]]].
+    exists g'. split; [exact E|]. split; [rewrite Hn; apply map_nname_bare|]. split; [rewrite Hs; reflexivity|exact Hp].
+  Qed.
 End RoundTrip.
+
+(* ---- the executable well-formedness check is sound ------------------------------ *)
+Lemma existsb_bytes_In : forall x l, existsb (bytes_eqb x) l = true -> In x l.
+Proof.
+  intros x l H. apply existsb_exists in H. destruct H as [y [Hy E]]. apply bytes_eqb_eq in E. subst y. exact Hy.
+Qed.
+
+Lemma nodupb_sound : forall l, nodupb l = true -> NoDup l.
+Proof.
+  induction l as [|x t IH]; intro H; [constructor|].
+  cbn [nodupb] in H. apply andb_true_iff in H. destruct H as [H1 H2]. constructor; [|apply IH; exact H2].
+  intro Hin. apply negb_true_iff in H1. assert (existsb (bytes_eqb x) t = true); [|congruence].
+  apply existsb_exists. exists x. split; [exact Hin|apply bytes_eqb_refl].
+Qed.
+
+Lemma same_pairb_complete : forall s e1 e2, same_pair s e1 e2 -> same_pairb s e1 e2 = true.
+Proof.
+  intros s e1 e2 [[H1 H2]|[Hd [H1 H2]]]; unfold same_pairb.
+  - rewrite H1, H2, !bytes_eqb_refl. reflexivity.
+  - rewrite Hd, H1, H2, !bytes_eqb_refl. cbn. apply orb_true_r.
+Qed.
+
+Lemma admissibleb_sound : forall s names done e,
+  admissibleb s names done e = true -> admissible bytes_ltb s names done e.
+Proof.
+  intros s names done e H. unfold admissibleb in H.
+  repeat (apply andb_true_iff in H; destruct H as [H ?]).
+  unfold admissible. split; [apply existsb_bytes_In; assumption|]. split; [apply existsb_bytes_In; assumption|].
+  split; [|split].
+  - intros Hs Heq. rewrite Hs in H2. cbn in H2. apply negb_true_iff in H2. rewrite Heq, bytes_eqb_refl in H2. discriminate.
+  - intro Hd. rewrite Hd in H1. cbn in H1. apply negb_true_iff in H1. exact H1.
+  - intros Hm e' Hin Hsp. rewrite Hm in H0. cbn in H0. rewrite forallb_forall in H0. specialize (H0 e' Hin).
+    apply negb_true_iff in H0. rewrite (same_pairb_complete _ _ _ Hsp) in H0. discriminate.
+Qed.
+
+Lemma all_admissibleb_sound : forall s names es done,
+  all_admissibleb s names done es = true -> all_admissible bytes_ltb s names done es.
+Proof.
+  intros s names es. induction es as [|e es IH]; intros done H; cbn [all_admissibleb all_admissible] in *; [exact I|].
+  apply andb_true_iff in H. destruct H as [H1 H2]. split; [apply admissibleb_sound; exact H1|apply IH; exact H2].
+Qed.
+
+Theorem wf_roundtrip_b_sound : forall s ns es,
+  wf_roundtrip_b s ns es = true ->
+  NoDup (map nname ns) /\ all_admissible bytes_ltb s (map nname ns) [] es.
+Proof.
+  intros s ns es H. unfold wf_roundtrip_b in H. apply andb_true_iff in H. destruct H as [H1 H2].
+  split; [apply nodupb_sound; exact H1|apply all_admissibleb_sound; exact H2].
+Qed.
 
 (* the oracle hypotheses are satisfiable: one weight token = one non-markup symbol *)
 Definition ex_fmt (z : Z) : bytes :=
@@ -256,4 +356,15 @@ Proof.
   split; [intros e He; cbn in He; destruct He as [<-|[<-|[]]]; cbn; auto|].
   split; [vm_compute; reflexivity|].
   split; reflexivity.
+Qed.
+
+Example roundtrip_full_nonvacuous : exists g,
+  ex_graph = Ok g /\
+  NoDup (map nname (get_all_nodes g)) /\
+  all_admissible bytes_ltb (sp g) (map nname (get_all_nodes g)) [] (get_all_edges g).
+Proof.
+  eexists. split; [vm_compute; reflexivity|].
+  split; [cbn; repeat constructor; cbn; intuition discriminate|].
+  cbn. unfold admissible, same_pair. cbn.
+  repeat split; auto; try discriminate; try (intros _ e' [<-|[]]; cbn; intuition discriminate); intros _ e' [].
 Qed.
